@@ -14,7 +14,7 @@ def verdict (e : Exp) (ans : Option String) : String :=
 
 def isReq (l : String) : Bool := !(l.isEmpty || l.startsWith "#")
 
-partial def loop (c : Cfg) (script : IO.FS.Stream) (impl : Option IO.FS.Stream) (out : IO.FS.Stream) (tbl : Tbl) : IO Unit := do
+partial def loop (c : Cfg) (script : IO.FS.Stream) (impl : Option IO.FS.Stream) (out : IO.FS.Stream) (tbl : Tbl × PosCache) : IO Unit := do
   let line ← script.getLine
   if line.isEmpty then return ()
   let l := (line.dropEndWhile fun ch => ch == '\n' || ch == '\r').toString
@@ -38,7 +38,7 @@ def main (args : List String) : IO UInt32 := do
       let h ← IO.FS.Handle.mk impl .read
       pure (some (IO.FS.Stream.ofHandle h))
     let out ← IO.getStdout
-    loop c (IO.FS.Stream.ofHandle sh) ih out {}
+    loop c (IO.FS.Stream.ofHandle sh) ih out ({}, {})
     return 0
   | _ =>
     IO.eprintln "usage: sucds_model <checked 0|1> <intrinsics 0|1> <script> <impl-transcript|->"
